@@ -289,9 +289,8 @@ Definition ut_meas (Lin Lout : layout) {d dc p} (pc dx : nat) (w : utw)
            (predicted : list (M O d 1) -> option (list (M O p 1))) : option (ut_result p pc dx) :=
   ut_generic Lin Lout pc dx w comps predicted.
 
-(* overload for AdditiveMeasurementModel: flag forwarded, covariance(i) += R.
-   (On failure the C++ adds R into the default-constructed 1x1 output before
-   returning valid = false; the returned flag is what the model keeps.) *)
+(* overload for AdditiveMeasurementModel: flag forwarded; on failure it returns
+   before the post-processing, otherwise covariance(i) += R *)
 Definition ut_additive_meas (Lin Lout : layout) {d dc p} (pc dx : nat) (w : utw)
            (comps : list (M O d 1 * M O dc dc))
            (predicted : list (M O d 1) -> option (list (M O p 1))) (R : M O pc pc)
